@@ -53,7 +53,7 @@ def plan(tier, seed):
     idx = [i for i, t in enumerate(targets)
            if not G.audit_fatal(t.defn) and c16.kw_constructible(t) and not c03.has_hp(t.defn)]
     return [{"what": "optimised", "part": i, "of": 12} for i in range(12)] + [
-        {"targets": p} for p in C.split_round_robin(idx, 24)]
+        {"targets": p} for p in C.split_round_robin(idx, 24)] + [{"what": "race", "suites": ["build"]}]
 
 
 # --------------------------------------------------------------- hostile values
@@ -347,6 +347,10 @@ def _child_env():
 
 
 def check(case) -> core.Out:
+    if isinstance(case, dict) and case.get("kind") == "race":
+        from vp.props import racing
+
+        return racing.check_race(PROP, case)
     import pyubx2
 
     if case.get("kind") == "optimised":
@@ -527,6 +531,12 @@ def run_optimised(spec, ctx, acc):
 
 
 def run_shard(spec, ctx, acc):
+    if spec.get("what") == "race":
+        # steady-state concurrency (see vp/props/racing.py)
+        for suite in spec["suites"]:
+            case = {"kind": "race", "suite": suite, "seconds": 1.2 if ctx["tier"] == "quick" else 20}
+            core.handle(acc, check(case), case, set(ctx["known"]))
+        return
     if spec.get("what") == "optimised":
         return run_optimised(spec, ctx, acc)
     targets = C.cat()[0]
